@@ -1548,8 +1548,8 @@ PAIR_CASES = {
     "integer": ["ok", "float", "str"],
     "float": ["ok", "ok-inf", "str", "bool"],
     "string": ["ok", "int", "float"],
-    "choice": ["ok", "not-in-list", "int"],
-    "multichoice": ["ok", "ok-one", "one-not-in-list", "int"],
+    "choice": ["ok", "not-in-list", "int", "ok-semicolon", "joined-entries"],
+    "multichoice": ["ok", "ok-one", "one-not-in-list", "int", "ok-semicolon"],
     "file": ["ok", "int"],
     "object": ["ok", "unknown", "ill-formed", "foreign", "int", "int-list"],
     "group": ["ok", "unknown", "ill-formed", "foreign", "int", "int-list"],
@@ -1667,12 +1667,14 @@ def run_pair(program, res, pid="C15"):
             form = templates.string_parameter(value="stored")
             value = {"ok": text, "int": 5, "float": 2.5}[vcase]
         elif kind == "choice":
-            form = templates.choice_string_parameter(choice_list=["A", "B", text], value="A")
-            value = {"ok": ["A", "B", text][pick % 3], "not-in-list": text + "?", "int": 3}[vcase]
+            # (entries are plain strings: an entry may contain a semicolon, and two entries joined by one are no entry)
+            form = templates.choice_string_parameter(choice_list=["A", "B", text, "x; y " + text], value="A")
+            value = {"ok": ["A", "B", text][pick % 3], "not-in-list": text + "?", "int": 3,
+                     "ok-semicolon": "x; y " + text, "joined-entries": "A;B"}[vcase]
         elif kind == "multichoice":
-            form = templates.choice_string_parameter(choice_list=["A", "B", text], value=["A"], multi_select=True)
+            form = templates.choice_string_parameter(choice_list=["A", "B", text, "x; y " + text], value=["A"], multi_select=True)
             value = {"ok": ["B", text], "ok-one": ["A", "B", text][pick % 3:][:1], "one-not-in-list": ["A", text + "?"],
-                     "int": 3}[vcase]
+                     "int": 3, "ok-semicolon": ["A", "x; y " + text]}[vcase]
         elif kind == "file":
             form = templates.file_parameter(value="a.txt", file_type=("txt",), file_description=("text",))
             value = {"ok": "dir/" + (text.replace(";", "_") or "b") + ".txt", "int": 5}[vcase]
